@@ -1,4 +1,5 @@
 import SecsModel.Proofs.Txn
+import SecsModel.Gen.RxOrder
 /-!
 # C06 — Replies reach exactly their requester; messages delivered once, in order
 
@@ -28,6 +29,13 @@ theorem counter_spec (c : Int) (h0 : 0 ≤ c) (h1 : c < 4294967296) :
   · cases this
 
 example : Gen.Misc.getNextSystemCounter 4294967295 = .ok (0, 0) := rfl
+
+/-- **No lost wake-up between the receive path and a dispatcher thread** (statement orders regenerated from the source, `Gen.RxOrder`, the
+framing package's unit): `queue_block` appends *before* it sets the trigger, and the dispatcher loop clears its trigger *before* it drains
+the queue — so a block queued at any moment is either seen by the running drain loop or leaves the trigger set.  This is what the model's
+`pop` step assumes (it is enabled whenever the dispatch queue is non-empty and the thread is idle). -/
+theorem dispatcher_loop_order :
+    Gen.RxOrder.queueBlock = ["append", "trigger"] ∧ Gen.RxOrder.dispatcherLoop = ["wait", "clear", "stoptest", "drain"] := by decide
 
 /-! ## distinct system bytes -/
 
